@@ -405,7 +405,7 @@ def jobs_for(prop, tier):
         return jobs_simplify(tier)
     if prop == 'C07':
         return [j for j in jobs_option_below(tier) if j[1][3] == 'combinations']
-    return {'C01': jobs_c01, 'C03': jobs_c03, 'C04': jobs_c04, 'C06': jobs_c06, 'C08': jobs_c08, 'C05': jobs_c05, 'C09': jobs_c09}.get(prop, lambda t: [])(tier)
+    return {'C01': jobs_c01, 'C02': jobs_c02, 'C03': jobs_c03, 'C04': jobs_c04, 'C06': jobs_c06, 'C08': jobs_c08, 'C05': jobs_c05, 'C09': jobs_c09}.get(prop, lambda t: [])(tier)
 
 
 # ------------------------------------------------------------------------------------------------ C01: getitem_next of list nodes
@@ -1372,4 +1372,118 @@ def jobs_c08(tier):
     trip = [(A[2], A[0], A[1]), (A[0], A[2], A[3]), (A[1], A[2], A[0])] if tier == 'quick' else [(a, b, c) for a in A[:3] for b in A[:4] for c in A[:3]]
     for t in trip:
         js.append((h_indexed_mergemany, (t,), 600))
+    return js
+
+
+# ------------------------------------------------------------------------------------------------ C02: conversions between encodings keep the value
+CONVERSIONS = [
+    # (class, method symbol prefix after the class name, extra args, kind)
+    ('ListOffsetArray64', '19toListOffsetArray64Eb', [1], 'same'), ('ListOffsetArray64', '19toListOffsetArray64Eb', [0], 'same'), ('ListOffsetArray64', '14toRegularArrayEv', [], 'regular'),
+    ('ListArray64', '19toListOffsetArray64Eb', [1], 'same'), ('ListArray64', '14toRegularArrayEv', [], 'regular'),
+    ('RegularArray', '19toListOffsetArray64Eb', [1], 'same'),
+    ('IndexedOptionArray64', '7projectEv', [], 'project'), ('ByteMaskedArray', '7projectEv', [], 'project'), ('BitMaskedArray', '7projectEv', [], 'project'), ('UnmaskedArray', '7projectEv', [], 'project'),
+    ('ByteMaskedArray', '22toIndexedOptionArray64Ev', [], 'same'), ('BitMaskedArray', '22toIndexedOptionArray64Ev', [], 'same'), ('BitMaskedArray', '17toByteMaskedArrayEv', [], 'same'),
+    ('UnmaskedArray', '22toIndexedOptionArray64Ev', [], 'same'), ('UnmaskedArray', '17toByteMaskedArrayEv', [], 'same'),
+]
+
+
+@guard
+def h_convert(cls, dims, variant, meth, extra, kind):
+    """conversion of a node to another encoding of the same value (what operations do before delegating): toListOffsetArray64 (with or without
+    re-basing), toRegularArray (raises unless all lists have one length), toIndexedOptionArray64 / toByteMaskedArray, project() (drops exactly the
+    missing entries): the nested-list value of the result equals that of the receiver"""
+    nc = NodeCtx(['LOA', 'LA', 'RA', 'IA', 'BMA', 'BIT', 'UMA', 'IDX', 'CNT', 'UTL', 'KD', 'IDS'], [], unwind=max(12, 3 * sum(dims) + 3 * len(dims) + 10))
+    head_of = None
+    if cls in ('ListOffsetArray64', 'ListArray64', 'RegularArray'):
+        this, vals, short, rp = any_node(nc, cls, dims)
+        lens0 = node_lens(cls, dims)
+    elif cls == 'IndexedOptionArray64':
+        this, vals, short, rp = any_node(nc, cls, dims)
+    elif cls == 'ByteMaskedArray':
+        pat = tuple(map(bool, dims))
+        this, mk = build_bytemasked(nc, pat, variant)
+        vals = [NONE if p else Elem(BV(i)) for i, p in enumerate(pat)]
+        short = '15ByteMaskedArray'
+        rp = lambda model, lc: ('i64 %s bytemask %s %d ' % (fullnative.ints(range(max(lc, len(pat)))), fullnative.ints([model.eval(x, model_completion=True).as_signed_long() for x in mk]), 1 if variant else 0),
+                                [None if p else i for i, p in enumerate(pat)])
+    elif cls == 'BitMaskedArray':
+        pat = tuple(map(bool, dims))
+        vw, lsb = variant
+        this, a0 = build_bitmasked(nc, pat, vw, lsb)
+        vals = [NONE if p else Elem(BV(i)) for i, p in enumerate(pat)]
+        short = '14BitMaskedArray'
+        nbytes = (len(pat) + 7) // 8 or 1
+        rp = lambda model, lc: ('i64 %s bitmask %s %d %d %d ' % (fullnative.ints(range(max(lc, len(pat)))), fullnative.ints([model.eval(z3.Select(a0, BV(k)), model_completion=True).as_long() for k in range(nbytes)]),
+                                                                     1 if vw else 0, len(pat), 1 if lsb else 0), [None if p else i for i, p in enumerate(pat)])
+    else:
+        this, vals, short, rp = any_node(nc, 'UnmaskedArray', (len(dims),))
+    nc.m.record('ret', {})
+    cands = [f for mod_ in nc.m.eng.mods for f in mod_.func_src if f.startswith('_ZNK7awkward%s%s' % (short, meth))]
+    if not cands:
+        raise Unsupported('%s of %s not found in the IR' % (meth, cls))
+    out = nc.m.call(cands[0], [Ptr('ret', 0), this] + [z3.BitVecVal(x, 1) for x in extra])
+    if kind == 'regular':
+        uniform = len(set(lens0)) <= 1
+        obls = [('toRegularArray raises exactly when the lists differ in length', z3.simplify(out.raised) != z3.BoolVal(not uniform))]
+        want = vals if uniform else None
+    elif kind == 'project':
+        obls = [('project does not raise', out.raised)]
+        want = [v for v in vals if not z3.is_true(z3.simplify(v.none))]
+    else:
+        obls = [('the conversion does not raise', out.raised)]
+        want = vals
+    if want is not None:
+        for g, res in nodeh.decode_cases(nc, out.mem, nc.m.cell('ret', 0)):
+            if res is None:
+                obls.append(('a result is returned', z3.And(g, z3.Not(out.raised))))
+                continue
+            obls += [(nm, z3.And(g, z3.Not(out.raised), c)) for nm, c in compare(value(res), want)]
+            if meth.startswith('19toListOffsetArray64') and extra == [1] and res['cls'] == 'listoffset' and res['offsets']:
+                obls.append(('the re-based offsets start at zero', z3.And(g, res['offsets'][0] != 0)))
+    def replay(model, ent):
+        lc = model.eval(nc.lencontent, model_completion=True).as_signed_long()
+        if lc > 200:
+            return False, 'content too long to replay', {}
+        head, inp = rp(model, lc)
+        op = {'19toListOffsetArray64Eb': 'tolistoffset64 %d' % (extra[0] if extra else 1), '14toRegularArrayEv': 'toregular', '7projectEv': 'project',
+              '22toIndexedOptionArray64Ev': 'tooption64', '17toByteMaskedArrayEv': 'tobytemask'}[meth]
+        kind_, got = fullnative.akrun(head + op)
+        payload = dict(program=head + op, native=[kind_, got])
+        if kind == 'regular' and len(set(lens0)) > 1:
+            if kind_ != 'ERR':
+                return True, '%s %s::toRegularArray: lists differ in length but the native library returns %s %s' % (cls, inp, kind_, str(got)[:120]), payload
+            return False, 'native library raises', payload
+        exp = [v for v in inp if v is not None] if kind == 'project' else inp
+        if kind_ != 'OK' or got != exp:
+            return True, '%s %s::%s: native library %s %s, expected the same value %s' % (cls, inp, op, kind_, str(got)[:150], exp), payload
+        return False, 'native library agrees (%s)' % (got,), payload
+    return mdischarge(nc.m, '%s::%s%s shape=%s variant=%s' % (cls, meth[2:].rstrip('Evb'), extra or '', ','.join(map(str, dims)), variant), obls, [], replay=replay, prefer=[nc.lencontent <= 24],
+                      extra=dict(bounds='shape / missing pattern %s concrete (case split); origins, index values, mask bytes symbolic' % (dims,)))
+
+
+def jobs_c02(tier):
+    js = []
+    shapes = [(2, 0, 1), (2, 2), (0,)] if tier == 'quick' else [l for n in (1, 2, 3) for l in itertools.product(range(3), repeat=n)]
+    regs = [(2, 2), (0, 3), (1, 2)] if tier == 'quick' else [(s_, l_) for s_ in range(3) for l_ in range(3)]
+    pats = [(0, 1, 0), (1, 1), (0, 0)] if tier == 'quick' else [p for k in (1, 2, 3) for p in itertools.product((0, 1), repeat=k)]
+    for cls, meth, extra, kind in CONVERSIONS:
+        if cls in ('ListOffsetArray64', 'ListArray64'):
+            for d in shapes:
+                js.append((h_convert, (cls, d, None, meth, extra, kind), 600))
+        elif cls == 'RegularArray':
+            for d in regs:
+                js.append((h_convert, (cls, d, None, meth, extra, kind), 600))
+        elif cls == 'IndexedOptionArray64':
+            for p in pats:
+                js.append((h_convert, (cls, p, None, meth, extra, kind), 600))
+        elif cls == 'ByteMaskedArray':
+            for p in pats:
+                for vw in (True, False):
+                    js.append((h_convert, (cls, p, vw, meth, extra, kind), 600))
+        elif cls == 'BitMaskedArray':
+            for p in pats:
+                for v in itertools.product((True, False), repeat=2):
+                    js.append((h_convert, (cls, p, v, meth, extra, kind), 600))
+        else:
+            js.append((h_convert, (cls, (0, 0, 0), None, meth, extra, kind), 600))
     return js
